@@ -239,7 +239,7 @@ class Reconcile:
                             values[i].f.verify(reparse=False)
 
                         slice = child_parent.get_slice(child_idx, child_idx - start + end, None,
-                                                       trivia=self.trivia_fst_get)
+                                                       trivia=self.trivia_fst_get).verify()  # reparse of the copy catches primitives changed in the other tree
 
                     except Exception:  # verification failed, need to do one AST at a time
                         pass
@@ -320,7 +320,7 @@ class Reconcile:
                             body[i].f.verify(reparse=False)
 
                         slice = child_parent.get_slice(child_idx, child_off_idx + end, child_field,
-                                                       trivia=self.trivia_fst_get)
+                                                       trivia=self.trivia_fst_get).verify()  # reparse of the copy catches primitives changed in the other tree
 
                     except Exception:  # verification failed, need to do one AST at a time
                         pass
@@ -457,7 +457,7 @@ class Reconcile:
         if not (nodef := getattr(node, 'f', None)) or nodef.root is not self.work:  # pure AST if no '.f' or FST from different tree
             if nodef:  # FST from different tree, need to verify it before using
                 try:
-                    copy = nodef.verify(reparse=False).copy(trivia=self.trivia_fst_get)
+                    copy = nodef.verify(reparse=False).copy(trivia=self.trivia_fst_get).verify()  # links, then reparse of the copy catches primitives changed in the other tree
 
                 except Exception:  # verification failed, fall through to pure AST
                     pass
